@@ -1,4 +1,5 @@
 import Proofs.C14
+import PikoModel.Generated.Facts
 /-!
 # C14 — Watcher notifications, folded in order, always equal the visible cluster state
 
@@ -210,5 +211,19 @@ example : (runOps (init "a" "A")
                                   { key := compactKey, value := "zz", version := 3, internal := true },
                                   { key := "k", value := "lost", version := 4 }] }]]).2 =
     [.join "b", .upsert "b" "k" "v"] := by decide
+
+/-- **State change and notification are one atomic step** (regenerated fact, lock analysis of
+`pkg/gossip`): every `….watcher.On…(…)` call of the gossip state is made while the state mutex is
+held - lexically, or at every call site of the unexported function that makes it - and all seven
+callbacks are among them.  This is what lets the theorems above speak about the notifications "in
+order": the order in which a concurrent node delivers them is the order of its state changes
+(a sweep that removed a node and announced it only after releasing the mutex could be overtaken by a
+digest re-adding that node: `join` before `expired`, seed C14c; op `pexpire` of engine `gossip`
+looks for exactly that). -/
+theorem C14_facts_notifications_atomic :
+    Facts.watcherNotifyUnlocked = some [] ∧
+    Facts.watcherCallbacksLocked =
+      some ["OnDeleteKey", "OnExpired", "OnJoin", "OnLeave", "OnReachable", "OnUnreachable", "OnUpsertKey"] := by
+  decide
 
 end Piko
